@@ -213,8 +213,10 @@ class ExpressionManager(object):
             )
             n = up.model.fnode.FNode(content, self._next_free_id, self.environment)
             self._next_free_id += 1
-            self.expressions[content] = n
+            # register the node only once it passed the type check: a rejected
+            # expression must not be handed out by a later call with the same content
             self.environment.type_checker.get_type(n)
+            self.expressions[content] = n
             return n
 
     def And(
